@@ -1,4 +1,4 @@
-import OdxVerif.Proofs.CompTrunc
+import OdxVerif.Proofs.CompTruncMsg
 /-! C05 for the nested tier (task W19): `Reads.rejected` — an atomic object the decoder has to read (`Proofs/CompTrunc.lean`)
     that does not lie completely inside the message makes every enclosing decoding function raise `DecodeError`. -/
 namespace OdxVerif.OdxM
@@ -167,5 +167,40 @@ theorem Reads.rejected (st : Bool) (f : Nat) (site : Site) (d dr : DecState) (bl
   | composite f ps d dr bl _ ih =>
     obtain ⟨d', h⟩ := ih hshort
     exact ⟨d', by simp only [decodeComposite, bind, run_bind, run_getS, run_modifyS, h]⟩
+
+/-- **every object the decoder has to read is an object of the message being decoded** -/
+theorem Reads.msg (st : Bool) (f : Nat) (site : Site) (d dr : DecState) (bl : Nat) (h : Reads st f site d dr bl) :
+    dr.msg = d.msg := by
+  induction h with
+  | std | minmax | leadingLen | paramLen | reserved | matchingReq => rfl
+  | leadingBody n bt enc hl bl d d1 i h1 _ => exact (keeps_extractAtomic _ _ _ _).ok h1
+  | simple _ _ _ _ _ _ _ _ ih | dtc _ _ _ _ _ _ _ _ _ ih | struct _ _ _ _ _ _ _ ih => exact ih
+  | staticField _ _ _ _ _ _ _ _ _ ih | dynCount _ _ _ _ _ _ _ _ _ _ _ ih | eopField _ _ _ _ _ _ _ _ _ ih
+  | endMarkerField _ _ _ _ _ _ _ _ _ ih | muxKey _ _ _ _ _ _ _ _ _ _ _ ih => exact ih
+  | dynItems f off cbp cbit cdop item d d1 dr i bl _ hcnt _ _ ih =>
+    have h1 := ((keeps_decode_all f).1 _).ok hcnt
+    exact ih.trans h1
+  | muxCase f bp swBp swBit swDop cases dflt d d1 dr key name cd bl hkey _ _ ih =>
+    have h1 := ((keeps_decode_all f).2.2.2.2.2.1 _).ok hkey
+    exact ih.trans h1
+  | staticHead _ _ _ _ _ _ _ _ ih | nHead _ _ _ _ _ _ _ ih | endHead _ _ _ _ _ _ _ ih => exact ih
+  | staticTail f item size n d d1 dr x bl hx _ ih => exact ih.trans (show d1.msg = d.msg from ((keeps_decode_all f).1 _).ok hx)
+  | nTail f item n d d1 dr x bl hx _ _ ih => exact ih.trans (show d1.msg = d.msg from ((keeps_decode_all f).1 _).ok hx)
+  | endTail f item d d1 dr x bl _ hx _ _ ih => exact ih.trans (show d1.msg = d.msg from ((keeps_decode_all f).1 _).ok hx)
+  | markHead f tv tdop item d d1 dr bl _ hprobe _ ih =>
+    refine ih.trans (show d1.msg = d.msg from ?_)
+    cases hprobe with
+    | other x d1 hx _ => exact ((keeps_decode_all f).1 _).ok hx
+    | raised e d1 he _ => exact ((keeps_decode_all f).1 _).error he
+  | markTail f tv tdop item d d1 d2 dr x bl _ hprobe hx _ _ ih =>
+    refine ih.trans (((keeps_decode_all f).1 _).ok hx |>.trans (show d1.msg = d.msg from ?_))
+    cases hprobe with
+    | other x d1 hx _ => exact ((keeps_decode_all f).1 _).ok hx
+    | raised e d1 he _ => exact ((keeps_decode_all f).1 _).error he
+  | codedConst _ _ _ _ _ _ _ _ _ _ ih | physConst _ _ _ _ _ _ _ _ _ _ ih | value _ _ _ _ _ _ _ _ _ _ ih
+  | nrcConst _ _ _ _ _ _ _ _ _ _ ih | lengthKey _ _ _ _ _ _ _ _ _ ih => exact ih
+  | paramsHead _ _ _ _ _ _ _ ih => exact ih
+  | paramsTail f p rest d d1 dr v bl hv _ ih => exact ih.trans (show d1.msg = d.msg from ((keeps_decode_all f).2.2.2.2.2.1 _).ok hv)
+  | composite _ _ _ _ _ _ ih => exact ih
 
 end OdxVerif.Codec
